@@ -1,5 +1,5 @@
 """Offline checkers over the JSON-lines event log of a harness run.  Pure functions
-`(log, meta) -> [(mechanism, detail)]`; unit-tested on hand-made logs (vlib/props/selfcheck).
+`(log, meta) -> [(mechanism, detail)]`; unit-tested on hand-made logs (tools/selfcheck.py).
 
 meta: {'mapping': {port: 'STS'|'MTS'}, 'ports': {port: {'direction': 'provides'|'requires'}},
        'mc': None | {'port','claim','release','grant'}, 'origin': 'create'|'import'}
